@@ -20,6 +20,7 @@ from common import frac_str, close
 
 MAX_EVALS_GUARD = 45          # a run that evaluates more often than this is cut (never reached by the generators)
 ES_V123_EVAL_POINTS = True      # see gen_cfg (fix-2 applied: the recorded count is the one the stopping rule reads)
+FIXED_BLOCK = 7                 # configurations 0..6 of every run are directed families (see run())
 MAX_POINTS_GUARD = 4000      # ... and so is a run that evaluates far more points than any generated limit allows
 STRATEGIES = ("dimwise", "extend_split")
 _CLS = {}
@@ -493,6 +494,11 @@ def returned_result_clause(viol, cfg, sa, ret, last_result, last_error, ref, pre
     if not cfg.get("reeval"):
         if returned != last_result:
             viol(prefix + "result-not-last-evaluation", {"returned": returned, "at_last_evaluation": last_result})
+        return
+    if cfg.get("strategy") == "extend_split" and cfg.get("version") == 3:
+        # the undocumented coarsening version 3 computes OTHER component grids when an area is evaluated from scratch than when
+        # it is evaluated incrementally (recorded in handoff/C13.md): the re-evaluated result is legitimately another quadrature
+        # value (relative difference ~1e-3), so "recomputed = last evaluation up to rounding" is not a clause there
         return
     size = max([abs(x) for x in returned + last_result] + [0.0])
     if not hasattr(sa.refinement, "refinementContainers"):
@@ -1016,7 +1022,7 @@ def run(ctx):
             ctx.corr_break("C13/bad-op", {"line": line}, {"model": drv.ask(line)})
         ctx.count("malformed_lines")
     for k in range(n_cfg):
-        if ctx.time_left(budget) < 0:
+        if k >= FIXED_BLOCK and ctx.time_left(budget) < 0:      # the directed families of the fixed block always run
             break
         cfg = gen_cfg(ctx.rng, thorough)
         if k < 2:
@@ -1036,6 +1042,19 @@ def run(ctx):
             if k == 3:
                 cfg["coeffs"], cfg["powers"] = cfg["coeffs"][:1], cfg["powers"][:1]
             ctx.count("family_uq_reference_in_constructor")
+        elif k < FIXED_BLOCK:
+            # always present, before the budgeted random phase (independent of the machine's load): extend-split runs that reach the
+            # "recalculate everything from scratch" branch of refine() (recalculate_frequently with the threshold lowered to 1) on the
+            # nested trapezoidal grid (k = 4) and on the Gauss-Legendre grid whose refined-away points leave the grid (k = 5), and a run
+            # whose returned result is recomputed by evaluate_final_combi (reevaluate_at_end, k = 6)
+            while not (cfg["strategy"] == "extend_split" and cfg["dim"] == 2 and cfg["ref"] in ("exact", "perturbed")):
+                cfg = gen_cfg(ctx.rng, thorough, strategy="extend_split")
+            cfg.update(lmax=2, version=0, ctor={}, test_scheme=False, cache=True,
+                       grid="gauss_legendre" if k == 5 else "trapezoidal",
+                       recalc=None if k == 6 else 1, reeval=(k == 6))
+            cfg.pop("eval_points", None)
+            cfg.pop("box", None)
+            ctx.count("family_recalculate_branch" if k < 6 else "family_reevaluate_at_end")
         cap = ctx.rng.choice([60, 90, 130, 180] if cfg["dim"] == 2 else [120, 200, 300])
         if cfg.get("family") == "ssd_cc":
             cap = 1           # the first evaluation only; the assertion-prone refinements of this option x grid are not entered
